@@ -1322,18 +1322,21 @@ class TexArgs(list):
         """
         arg = self.__coerce(arg)
 
+        # normalize the index the way ``list.insert`` does
+        if i < 0:
+            i = max(len(self) + i, 0)
+        i = min(i, len(self))
+
+        # in the proxy `.all`, the new argument goes right before the
+        # argument it will precede in the list
+        if i == len(self):
+            j = len(self.all)
+        else:
+            j = [k for k, a in enumerate(self.all) if a is self[i]][0]
+
         if isinstance(arg, (TexGroup, TexCmd)):
             super().insert(i, arg)
-
-        if len(self) <= 1:
-            self.all.append(arg)
-        else:
-            if i > len(self):
-                i = len(self) - 1
-
-            before = self[i - 1]
-            index_before = self.all.index(before)
-            self.all.insert(index_before + 1, arg)
+        self.all.insert(j, arg)
 
     def remove(self, item):
         """Remove either an unparsed argument string or an argument object.
@@ -1367,7 +1370,7 @@ class TexArgs(list):
         self.all.remove(item)
         super().remove(item)
 
-    def pop(self, i):
+    def pop(self, i=-1):
         """Pop argument object at provided index.
 
         :param int i: Index to pop from the list
@@ -1381,7 +1384,7 @@ class TexArgs(list):
         BraceGroup('arg0')
         """
         item = super().pop(i)
-        j = self.all.index(item)
+        j = [k for k, a in enumerate(self.all) if a is item][0]
         return self.all.pop(j)
 
     def reverse(self):
